@@ -34,6 +34,15 @@ Obligations decided (rule ids; the clause each one is necessary for in brackets)
           still allocating is allocated with the final mark; no other writer of the allocation; every record returned.   [b, d, e]
   R6 (O6) the mark is only ever replaced by mark (no change), the new level, or mark + a non-negative increment.           [b]
   R7      use sites in the same module read the allocation field that the function writes (and nothing else); call shapes bind the free amount.
+  R8      shortcut exits before the loop agree with the closed forms of water filling (finite order domain; see the section comment).
+  R9      a non-positive free amount hands out nothing ("including zero/negative free cores": for free <= 0 the clauses non-negative and
+          total <= free collapse to "every allocation is 0").  This one does NOT assume the two-SortedSet shape: engines/c11sign.py interprets
+          the whole function abstractly (intervals + the interval of the free-derived part of every value, container emptiness, test
+          refinement, loop fixpoints, local / module-level / same-class helpers interpreted at the call) once per sign case of the free
+          amount on entry; a read of a definitely negative free amount that is reachable and flows unclamped into a stored allocation is a
+          violation, "no reachable store receives a free-derived part" is the proof, anything relational is declined.  It is evaluated
+          before the shape is looked for, so a rewritten algorithm that loses the test of the free amount is reported (exit 1) although
+          its step obligations R1-R8 are declined.                                                                  [b, c for free <= 0]
 The situation table ranges over head >= mark only (== and >): head < mark is excluded by I itself (pending/allocating users are at or
 above the mark), which is re-established by every step once R1-R6 hold; cost-vs-free ranges over <, ==, > (for cost == free both
 branches are accepted: they coincide).  Accepted as equivalent and therefore not alarmed on: `<=` for the two equality tests,
@@ -44,6 +53,9 @@ heads are >= mark by I and != mark by R2/R3, so cost >= 0, n = 0 => cost = 0 <= 
 raises the mark to the next of finitely many breakpoints or leaves), and the rounding bounds: with integer inputs mark stays integer
 (int(x + 0.5) of a quotient), cost > free gives free/n < level - mark hence the rounded increment <= level - mark (clause a survives
 rounding), and the handed-out total differs from free by at most n/2.
+Not decided for a rewritten algorithm (any shape other than the two-SortedSet state machine): R1-R8, i.e. everything about free > 0 - the
+upper bound by the ready demand, the total, exhaustion, the common level; these are relational (mark <= total[u], conservation) and no
+interval/sign domain decides them; R9 only covers free <= 0.
 Not decided: that the SQL query returns one row per user with non-negative integer counters; sortedcontainers.SortedSet semantics;
 whether the free amount passed by callers is the pool's real free capacity (and its unit).
 """
@@ -67,12 +79,14 @@ META = dict(
          'loop body over polynomial normal forms and a finite table over emptiness x order relations (which path each situation takes, and '
          'what it does to the sets, the mark and the free amount), plus linear forms of the key definitions and of the stored allocation. '
          'The induction over loop iterations and the rounding bounds are argued in the module docstring, not mechanised; this is the right '
-         'level because the property quantifies over numeric multisets (no sampling) while each step is a closed-form update.',
-    note='Trusted: CPython ast; engines/polysym.py, linform.py, asyncfacts.TestEval; SortedSet keeps its elements ordered by key while keys '
+         'level because the property quantifies over numeric multisets (no sampling) while each step is a closed-form update.  Independently of the loop '
+         'shape, the case "zero/negative free cores" is decided by a sign/interval abstract interpretation of the whole function (R9): nothing derived '
+         'from a non-positive free amount reaches a stored allocation.',
+    note='Trusted: CPython ast; engines/polysym.py, c11sign.py, linform.py, asyncfacts.TestEval; SortedSet keeps its elements ordered by key while keys '
          'are stable. Not decided: the SQL rows (one per user, non-negative integers), the callers\' free amount and its unit, float precision '
          'beyond 2**53.',
     technique='static analysis: per-path symbolic transfer functions of the loop body over polynomial normal forms (abstract interpretation, no solver) + finite truth tables over the order relation + '
-              'linear-form comparison + writer closure',
+              'linear-form comparison + writer closure + interval abstract interpretation with a free-derived-part component (fixpoint with widening, test refinement)',
     design_ref='DESIGN.md §3 C11 (partial claim; design given with the task)',
 )
 
@@ -1620,8 +1634,8 @@ def check_sign(ctx: Ctx, m: pf.Module, T: dict) -> None:
     params = [a.arg for a in fn.args.args if a.arg not in ('self', 'cls')]
     free_param = None
     if T['free_call'] is None:
-        ctx.need(len(params) == 1 and not fn.args.vararg and not fn.args.kwarg and not fn.args.kwonlyargs, f'{q}: expected the free amount as the only parameter, found {params}')
-        free_param = params[0]
+        ctx.need(len(params) >= 1 and not fn.args.vararg and not fn.args.kwarg, f'{q}: expected the free amount as the first parameter, found {params}')
+        free_param = params[0]          # the callers bind it positionally (R7)
     else:
         ctx.need(any(isinstance(c, ast.Call) and isinstance(c.func, ast.Attribute) and c.func.attr == T['free_call'] for c in ast.walk(fn)),
                  f'{q}: the free amount is no longer taken from {T["free_call"]}()')
@@ -1695,7 +1709,8 @@ def run(ctx: Ctx) -> None:
     ctx.explanation = ('Path-wise abstract execution (symbolic transfer functions) of the two water-filling loops over polynomial normal forms; a finite table over emptiness of the two ordered sets x '
                        'relation of each head to the mark x relation of the step cost to the free amount selects the path each situation takes, whose effect on the sets, '
                        'the mark and the free amount is compared with the water-filling step; linear forms of the key definitions and of the stored allocation; writer '
-                       'closure of the key dicts and of the allocation field.  The induction over iterations and the rounding bounds are argued, not mechanised.')
+                       'closure of the key dicts and of the allocation field.  The induction over iterations and the rounding bounds are argued, not mechanised.  '
+                       'Shape-independent part: interval abstract interpretation of the whole function in the sign cases free < 0 / free == 0 (R9).')
     ctx.rule('R1', 'sorted-set key dicts are written once per record before insertion and never afterwards; running = held fields, total - running = ready; '
                    'every record starts at 0 and is stored in the result', 12)
     ctx.rule('R2', 'pending -> allocating exactly when the head running level equals the mark: same user removed and added, nothing else changes', 4)
@@ -1710,7 +1725,7 @@ def run(ctx: Ctx) -> None:
                    '(0 when free <= 0; ready when everything fits; min(ready, free) for a single claimant), within [0, ready] otherwise', 4)
     ctx.rule('R9', 'a non-positive free amount hands out nothing, whatever the shape of the loops: in the sign cases free < 0 and free == 0 on entry (interval abstract '
                    'interpretation with test refinement, container emptiness and loop fixpoints) every reachable store into the returned records stores a value whose '
-                   'free-derived part is 0; a negative free amount consumed without a dominating test or clamp is a violation', 4)
+                   'free-derived part is 0; a negative free amount consumed without a dominating test or clamp is a violation', 6)
     ctx.assume('the query returns one row per user (GROUP BY user) with non-negative integer counters (CAST ... AS SIGNED); the free amount is an integer')
     ctx.assume('sortedcontainers.SortedSet(key=f) keeps its elements ordered by f as long as f(x) does not change while x is in the set; [0] is a minimum')
     ctx.assume('the induction over loop iterations (invariant I in the module docstring) and the rounding bounds are argued by hand from the decided step obligations')
